@@ -163,7 +163,7 @@ def build():
         ],
         "checks": checks,
         "not_applicable": na,
-        "notes": "Technique family: solver-based checking of the real code. Exit codes: 0 held, 1 VIOLATION (replayed natively), 2 INCONCLUSIVE (never reported as success or violation). known_findings.json lists fixed/open findings.",
+        "notes": "SCOPE WARNING: for C02, C03, C04, C06-C13 the claim is the SEQUENTIAL / STEP level spelled out in each check's text; the quantifiers of those properties over process interleavings, crash points, edit/run histories of unbounded length, arbitrary archive bytes through serde_json / ciborium and what a remote shell does are NOT decided by any check here (each level_note says so) - for those quantifiers the honest answer remains 'not applicable to this technique'. Technique family: solver-based checking of the real code. Exit codes: 0 held, 1 VIOLATION (replayed natively), 2 INCONCLUSIVE (never reported as success or violation). known_findings.json lists fixed/open findings.",
     }
 
 
